@@ -5,6 +5,7 @@ import os
 from concurrent.futures import ThreadPoolExecutor
 
 import common
+import dot
 import solver_common
 import trace
 from common import CheckError
@@ -12,8 +13,89 @@ from common import CheckError
 LEVEL = "exploration"
 
 
+def state_tracker(rep, tier):
+    """the best-state tracker behind the non-monotonic solvers (solver_state_t::update_if_better / update / value_test):
+    (M) SolverState.tla under TLC, (R) every edge of its state graph applied to a real solver_state_t, (V) long random call
+    histories of the real class validated against the same actions (SolverStateTrace.tla)"""
+    work = common.workdir("C02")
+    specdir = os.path.join(common.SPEC, "solver")
+    exe = common.build_harness("state_driver")["state_driver"]
+    r = common.tlc("SolverState", "SolverState_mc.cfg", specdir, workers=12, timeout=1800)
+    rep.add_tlc(r, "SolverState.tla/SolverState_mc.cfg")
+    if not r.ok:
+        if r.invariant_violated or r.property_violated:
+            rep.violation("SolverState.tla violates %s" % (r.invariant_violated or "an action property"), payload=r.out[-5000:])
+            return
+        raise CheckError("TLC failed on SolverState.tla:\n" + r.out[-3000:])
+    cfg = "SolverStateReplay.cfg" if tier == "quick" else "SolverStateReplay_big.cfg"
+    dotfile = os.path.join(work, "state.dot")
+    r = common.tlc("SolverStateReplay", cfg, specdir, workers=8, timeout=1800, extra=["-dump", "dot,actionlabels", dotfile])
+    rep.add_tlc(r, "SolverStateReplay.tla/" + cfg)
+    if not r.ok:
+        raise CheckError("TLC failed on SolverStateReplay.tla:\n" + r.out[-3000:])
+    g = dot.Graph(dotfile)
+    os.remove(dotfile)
+    ids = {n: i for i, n in enumerate(g.nodes)}
+    npat = len(next(iter(g.nodes.values()))["vt"])
+    table = os.path.join(work, "state_table.txt")
+    with open(table, "w") as f:
+        f.write("K %d\n" % npat)
+        for n, s in g.nodes.items():
+            f.write("N %d %d %d %d %d %d %s\n" % (ids[n], s["x"], s["fx"], s["g"][0], s["g"][1], int(s["better"]), " ".join(str(v) for v in s["vt"])))
+        for n in g.inits:
+            f.write("I %d\n" % ids[n])
+        for a, b, lab in g.edges:
+            name, args = dot.Graph.action(lab)
+            if name == "ROffer":
+                p, v, wg = args
+                f.write("T %d O %d %d %d %d %d\n" % (ids[a], p, 0 if v == 99 else v, int(v == 99), int(wg), ids[b]))
+            elif name == "RSet":
+                p, v = args
+                f.write("T %d S %d %d 0 1 %d\n" % (ids[a], p, v, ids[b]))
+            else:
+                raise CheckError("unexpected action label %r in the state graph of SolverStateReplay.tla" % lab)
+    out = os.path.join(work, "state_replay.ndjson")
+    rc, o, _ = common.run([exe, "table", table, out], timeout=1800, check=False)
+    recs = common.read_ndjson(out) if os.path.exists(out) else []
+    summ = [x for x in recs if x["e"] == "Summary"]
+    if rc != 0 or not summ:
+        rep.violation("best-state replay driver crashed (rc=%d)" % rc, payload={"output": o[-3000:]})
+    else:
+        for m in [x for x in recs if x["e"] == "Mismatch"][:5]:
+            rep.violation("solver_state_t deviates from SolverState.tla at %s: from %s the specification reaches %s, the implementation %s"
+                          % (m["where"], m.get("from", "-"), m["spec"], m["impl"]), payload=m)
+        if not rep.violations and (summ[0]["edges"] != len(g.edges) or summ[0]["steps"] != 2 * len(g.edges) or summ[0]["states"] != 2 * len(g.nodes)):
+            raise CheckError("best-state replay: %s of %d edges / %d states" % (summ[0], len(g.edges), len(g.nodes)))
+        rep.add(state_tracker_edges_replayed=len(g.edges), state_tracker_states=len(g.nodes), state_tracker_steps=summ[0]["steps"])
+    # long random histories of the real class against the same actions
+    nproc, nexec = (4, 150) if tier == "quick" else (12, 1500)
+
+    def drive(i):
+        tr = os.path.join(work, "state_random_%d.ndjson" % i)
+        rc, o, _ = common.run([exe, "random", tr, str(common.seed() * 1000 + 40 + i), str(nexec)], timeout=1800, check=False)
+        rs = common.read_ndjson(tr) if os.path.exists(tr) else []
+        crashed = rc != 0 or not rs or rs[-1].get("case") != -1
+        acc, rejects, results = trace.validate("SolverStateTrace", "SolverStateTrace.cfg", specdir, rs, tr + ".tlc", tag="c02s_%d" % i, chunk=200)
+        return crashed, o, acc, rejects, len(rs)
+
+    with ThreadPoolExecutor(nproc) as ex:
+        results = list(ex.map(drive, range(nproc)))
+    nacc = ncalls = 0
+    for crashed, o, acc, rejects, n in results:
+        if crashed:
+            rep.violation("best-state driver crashed", payload={"output": o[-3000:]})
+        for rj in rejects:
+            rep.violation("solver_state_t history rejected by SolverStateTrace.tla (%s): %s" % (rj.get("name"), str(rj.get("event"))[:500]), payload=rj)
+        nacc += acc
+        ncalls += n
+    if not rep.violations and nacc < nproc * nexec:
+        raise CheckError("best-state histories: %d of %d accepted without a rejection being reported" % (nacc, nproc * nexec))
+    rep.add(state_tracker_histories_validated=nacc, state_tracker_calls_validated=ncalls)
+
+
 def run(rep, tier):
     solver_common.model_check(rep, ["SolverLoop_ls.cfg", "SolverLoop_best.cfg"])
+    state_tracker(rep, tier)
     nproc, nsweep = (8, 300) if tier == "quick" else (16, 3000)
     total, stats, solvers, nevals = solver_common.drive_and_validate(rep, "C02", nproc, nsweep, 0, 0)
     if not rep.violations and (total < nproc * nsweep * 0.9 or len(solvers) < 35):
